@@ -141,7 +141,14 @@ def witness_files(ctx):
     load2 = write_kernel(ctx, "x86", ["addq 4(%rsi), %rbx", "vmulpd 8(%rdi,%rcx,8), %ymm2, %ymm3", "frobnicate %rax, %rbx"])
     a1 = write_kernel(ctx, "aarch64", ["ldr x1, [x2, #8]!", "str x1, [x2], #16", "ldadd x1, x2, [x3]", "fadd v0.2d, v1.2d, v2.2d"])
     a2 = write_kernel(ctx, "aarch64", ["ldr x1, [x2]", "ldr q1, [x3, #32]", "ldr x1, [x2], #8", "frobnicate x1, x2"])
-    return dict(rmw=rmw, load=load, rmw2=rmw2, load2=load2, a1=a1, a2=a2)
+    # names shared between files: one file DEFINES assembler symbols / labels that another file only USES (a parser that
+    # remembers anything from one file to the next -- symbol tables, label maps -- shows here)
+    xdef = write_kernel(ctx, "x86", [".set OFF, 16", ".equ DISP, 8", ".equiv STEP, 32", ".L5:", "movq %rcx, (%rsi)", "addq $STEP, %rax", "jne .L5"])
+    xuse = write_kernel(ctx, "x86", ["movq %rcx, OFF(%rsi)", "movq 16(%rsi), %rdx", "addq %rdx, %rcx", "movq %rax, DISP(%rdi)", "movq 8(%rdi), %rbx",
+                                     "addq $STEP, %rax", "jne .L5"])
+    adef = write_kernel(ctx, "aarch64", [".set OFF, 16", ".equ K, 8", ".L7:", "str x1, [x2]", "add x5, x5, #K", "b.ne .L7"])
+    ause = write_kernel(ctx, "aarch64", ["str x1, [x2, #OFF]", "ldr x3, [x2, #16]", "add x1, x3, x3", "add x5, x5, #K", "b.ne .L7"])
+    return dict(rmw=rmw, load=load, rmw2=rmw2, load2=load2, a1=a1, a2=a2, xdef=xdef, xuse=xuse, adef=adef, ause=ause)
 
 
 def req(arch, path, opts=()):
@@ -163,6 +170,13 @@ def core_histories(ctx, x86, a64):
         for arch in a64[:(3 if style == "reuse" else 1)]:
             hs.append({"style": style, "calls": [req(arch, w["a2"]), req(arch, w["a1"]), req(arch, w["a2"]),
                                                  req(arch, w["a1"], ["--consider-flag-deps"]), req(arch, w["a2"], ["--fixed"])]})
+    for style in ("reuse", "cli"):
+        if x86:
+            hs.append({"style": style, "calls": [req(x86[0], w["xuse"]), req(x86[0], w["xdef"]), req(x86[0], w["xuse"]),
+                                                 req(x86[-1], w["xuse"], ["--consider-flag-deps"]), req(x86[0], w["xdef"])]})
+        if a64:
+            hs.append({"style": style, "calls": [req(a64[0], w["ause"]), req(a64[0], w["adef"]), req(a64[0], w["ause"]),
+                                                 req(a64[-1], w["ause"], ["--fixed"]), req(a64[0], w["adef"])]})
     # both ISAs in one process, alternating
     if x86 and a64:
         hs.append({"style": "reuse", "calls": [req(x86[0], w["rmw"]), req(a64[0], w["a1"]), req(x86[0], w["load"]), req(a64[0], w["a2"]),
